@@ -298,6 +298,10 @@ P_ACQ = "pybads/acquisition_functions/acq_fcn_lcb.py"
 GPTQ = "pybads.bads.gaussian_process_train."
 ACQQ = "pybads.acquisition_functions.acq_fcn_lcb.acq_fcn_lcb"
 MUT["C15"] = [
+    dict(id="c15-stale-sd-at-poll-add", what="poll step hands the incumbent's GP SD to the incremental add instead of the SD just reported", path=P_BADS,
+         functions=[B + "._poll_step_@@pre::pair_is_the_latest_evaluation"],
+         old="                    u_new,\n                    y_poll,\n                    y_sd_poll,\n", new="                    u_new,\n                    y_poll,\n                    f_sd_poll_best,\n",
+         expect="pair_is_the_latest_evaluation"),
     dict(id="c15-farthest", what="the farthest points are taken", path=P_GPT, functions=[GPTQ + "get_grid_search_neighbors"],
          old="    return (U[sort_idx[0:ntrain]], Y[sort_idx[0:ntrain]], res_S)", new="    return (U[sort_idx[-ntrain:]], Y[sort_idx[-ntrain:]], res_S)", expect="ordered_by_distance"),
     dict(id="c15-y-unsorted", what="values not permuted with the inputs", path=P_GPT, functions=[GPTQ + "get_grid_search_neighbors"],
@@ -554,7 +558,7 @@ PROPS = {
         level="proof",
         native=[dict(name="pollgen-exhaustive", script="pollgen_enum.py", args_quick=["--dmax", 2], args_thorough=["--dmax", 3], timeout=1800), panel('C14', 8, 40)],
         replay=replay('C14', 40),
-        functions=[PMQ, B + "._poll_step_"],
+        functions=[PMQ, B + "._poll_step_", CC],
         scans=[scan_c14],
         mutants=MUT["C14"],
         explanation="Structural obligations on the real poll_mads_2n (all random outcomes, all D, all n_max): n_max integer >= 1 (== 1 for the default mesh ratio), the matrix before permutation is lower "
@@ -581,7 +585,9 @@ PROPS = {
         level="proof",
         native=[dict(name="gp-training-set-bounded", script="gp_train_model.py", args_quick=["--runs", 150], args_thorough=["--runs", 2000], timeout=1800), panel('C15', 6, 30)],
         replay=replay('C15', 30),
-        functions=[GPTQ + "get_grid_search_neighbors", GPTQ + "_get_fevals_data", GPTQ + "add_and_update_gp", ACQQ, FL + "._record"],
+        functions=[GPTQ + "get_grid_search_neighbors", GPTQ + "_get_fevals_data", GPTQ + "add_and_update_gp", ACQQ, FL + "._record",
+                   # the two call sites of the incremental add (the callers' other obligations are discharged under C18 / C14)
+                   B + "._search_step_@@pre::pair_is_the_latest_evaluation", B + "._poll_step_@@pre::pair_is_the_latest_evaluation"],
         mutants=MUT["C15"],
         explanation="get_grid_search_neighbors: every returned (input, value, variance) triple is a logged row (existential over log rows, points as values; variance == logged SD squared), "
                     "rows are X[argsort(dist)[k]] in ascending distance, every unselected logged point is at least as far as every selected one (argsort inverse), size within "
